@@ -3,7 +3,7 @@
 use crate::lua::*;
 use crate::reference::*;
 use crate::source::Source;
-use crate::{claim, note, witness};
+use crate::{claim, note, observe};
 use darklua_core::nodes::*;
 use darklua_core::process::LuaValue;
 
@@ -71,13 +71,13 @@ fn ev_binary<S: Source>(s: &mut S, class: u8) {
         }
     }
     note!(s, "evaluate({:?}) = {:?} ; Lua: {:?} {:?} {:?} -> {:?}", binary, result, a, binary_operator(op), b, outcome);
-    witness!(class == 0 || matches!(result, LuaValue::Number(_)), "arithmetic folds to a number");
-    witness!(class != 0 || (matches!(result, LuaValue::True) && op >= 4 && op <= 7), "comparison folds to true");
-    witness!(matches!(result, LuaValue::Unknown), "result stays unknown");
-    witness!(class != 0 || (op == 0 && matches!(result, LuaValue::Nil)), "and selects a falsy left operand");
-    witness!(class != 0 || (op == 1 && matches!(result, LuaValue::Table)), "or selects an operand");
-    witness!(class != 0 || (op == 15 && matches!(result, LuaValue::String(_))), "concat folds");
-    witness!(class != 2 || (op == 13 && matches!(result, LuaValue::Number(n) if n == 2.0)), "modulo folds to 2");
+    observe!(class == 0 || matches!(result, LuaValue::Number(_)), "arithmetic folds to a number");
+    observe!(class != 0 || (matches!(result, LuaValue::True) && op >= 4 && op <= 7), "comparison folds to true");
+    observe!(matches!(result, LuaValue::Unknown), "result stays unknown");
+    observe!(class != 0 || (op == 0 && matches!(result, LuaValue::Nil)), "and selects a falsy left operand");
+    observe!(class != 0 || (op == 1 && matches!(result, LuaValue::Table)), "or selects an operand");
+    observe!(class != 0 || (op == 15 && matches!(result, LuaValue::String(_))), "concat folds");
+    observe!(class != 2 || (op == 13 && matches!(result, LuaValue::Number(n) if n == 2.0)), "modulo folds to 2");
     if op <= 1 {
         claim!(s, sound_outcome(&result, outcome), "and/or: a definite result is the operand Lua selects");
     } else if op <= 3 {
@@ -88,10 +88,6 @@ fn ev_binary<S: Source>(s: &mut S, class: u8) {
         claim!(s, sound_outcome(&result, outcome), "arithmetic: a definite result is the IEEE result of the operator");
     } else {
         claim!(s, sound_outcome(&result, outcome), "concat: a definite result is a string only when both operands are strings or numbers");
-    }
-    // an unknown operand that decides the result must keep the result unknown
-    if !left.operand.known {
-        claim!(s, matches!(result, LuaValue::Unknown), "an unknown left operand keeps the result unknown");
     }
     core::mem::forget(binary);
 }
@@ -139,16 +135,12 @@ pub fn ev_unary<S: Source>(s: &mut S) {
     let result = evaluator.evaluate(&Expression::from(unary.clone()));
     let outcome = lua_unary(op, child.operand.actual);
     note!(s, "evaluate({:?}) = {:?} ; Lua -> {:?}", unary, result, outcome);
-    witness!(op == 0 && matches!(result, LuaValue::True), "not folds to true");
-    witness!(op == 1 && matches!(result, LuaValue::Number(n) if n == 0.0 && n.is_sign_negative()), "minus zero");
-    witness!(op == 2 && matches!(result, LuaValue::Number(_)), "length of a string folds");
+    observe!(op == 0 && matches!(result, LuaValue::True), "not folds to true");
+    observe!(op == 1 && matches!(result, LuaValue::Number(n) if n == 0.0 && n.is_sign_negative()), "minus zero");
+    observe!(op == 2 && matches!(result, LuaValue::Number(_)), "length of a string folds");
     claim!(s, sound_outcome(&result, outcome), "unary: a definite result is what Lua computes");
-    if !child.operand.known {
-        claim!(s, matches!(result, LuaValue::Unknown), "unary on an unknown operand stays unknown");
-    }
-    if op == 2 && !matches!(child.operand.actual, V::Str) {
-        claim!(s, matches!(result, LuaValue::Unknown), "length of a non-string is never folded (tables may have __len)");
-    }
+    // (soundness for unknown operands is part of the claim above: the operand's real value is
+    // symbolic, so a definite answer must be right for every value it may have)
     core::mem::forget(unary);
 }
 
@@ -224,9 +216,9 @@ fn ev_if<S: Source>(s: &mut S, branches: u8) {
     let result = evaluator.evaluate(&Expression::from(if_expression.clone()));
     let (value, _) = if_semantics(&children, branches);
     note!(s, "evaluate({:?}) = {:?} ; Lua yields {:?}", if_expression, result, value);
-    witness!(!matches!(result, LuaValue::Unknown), "if-expression folds");
-    witness!(matches!(result, LuaValue::Unknown), "if-expression stays unknown");
-    witness!(branches == 0 || (!children[0].operand.actual.truthy() && children[2].operand.actual.truthy() && !matches!(result, LuaValue::Unknown)), "an elseif branch is selected");
+    observe!(!matches!(result, LuaValue::Unknown), "if-expression folds");
+    observe!(matches!(result, LuaValue::Unknown), "if-expression stays unknown");
+    observe!(branches == 0 || (!children[0].operand.actual.truthy() && children[2].operand.actual.truthy() && !matches!(result, LuaValue::Unknown)), "an elseif branch is selected");
     claim!(s, sound(&result, value), "if-expression: a definite result is the value of the branch Lua selects");
     core::mem::forget(if_expression);
 }
@@ -251,8 +243,8 @@ fn se_if<S: Source>(s: &mut S, branches: u8) {
     let result = evaluator.has_side_effects(&Expression::from(if_expression.clone()));
     let (_, effects) = if_semantics(&children, branches);
     note!(s, "has_side_effects({:?}) = {} ; executing it calls out: {}", if_expression, result, effects);
-    witness!(result, "if-expression reported with side effects");
-    witness!(!result, "if-expression reported free of side effects");
+    observe!(result, "if-expression reported with side effects");
+    observe!(!result, "if-expression reported free of side effects");
     claim!(s, result || !effects, "if-expression: declared free of side effects only if the branch Lua takes makes no call");
     core::mem::forget(if_expression);
 }
@@ -352,9 +344,10 @@ fn se_prefix<S: Source>(s: &mut S, group: u8, arm: u8) {
             (result, effects)
         }
     };
-    witness!(result, "reported with side effects");
-    witness!(!result, "reported free of side effects");
-    witness!(!result && pure, "free of side effects under the pure-metamethods assumption");
+    note!(s, "helper arm {} on a prefix of group {}: has side effects = {}, model = {}", arm, group, result, model);
+    observe!(result, "reported with side effects");
+    observe!(!result, "reported free of side effects");
+    observe!(!result && pure, "free of side effects under the pure-metamethods assumption");
     match arm {
         0 => claim!(s, result || !model, "prefix: free of side effects only if no call is made and, unless metamethods are assumed pure, nothing is indexed"),
         1 => claim!(s, result || !model, "field access: free of side effects only if metamethods are assumed pure and the prefix makes no call"),
@@ -401,8 +394,9 @@ pub fn se_table_entry<S: Source>(s: &mut S) {
         _ => (TableEntry::from_value(child_expression(1, value)), value.effects),
     };
     let result = evaluator.verif_table_entry_has_side_effects(&entry);
-    witness!(result, "entry with side effects");
-    witness!(!result && kind == 1, "index entry free of side effects");
+    note!(s, "table entry kind {}: has side effects = {}, model = {}", kind, result, model);
+    observe!(result, "entry with side effects");
+    observe!(!result && kind == 1, "index entry free of side effects");
     claim!(s, result || !model, "table entry: free of side effects only if neither its key nor its value makes a call");
     core::mem::forget(entry);
 
@@ -450,9 +444,10 @@ fn multiple_values<S: Source>(s: &mut S, group: u8) {
         }
     };
     let answer = evaluator.can_return_multiple_values(&expression);
-    witness!(group != 0 || answer, "some expression may yield several values");
-    witness!(group != 0 || (!answer && kind == 4), "and/or yields one value");
-    witness!(group != 1 || !answer, "a single-valued form is recognised");
+    note!(s, "can_return_multiple_values({:?}) = {}", expression, answer);
+    observe!(group != 0 || answer, "some expression may yield several values");
+    observe!(group != 0 || (!answer && kind == 4), "and/or yields one value");
+    observe!(group != 1 || !answer, "a single-valued form is recognised");
     if group == 0 && kind <= 2 {
         claim!(s, answer || !may_yield_many, "a call or `...` is never said to yield a single value");
     } else {
